@@ -1,3 +1,4 @@
+import RSV.Props.C17buildMatrix
 import RSV.Props.C17matrix
 import RSV.Props.C01
 import RSV.Props.C01leo
